@@ -914,6 +914,14 @@ class RecordLayer(object):
 
             try:
                 if isinstance(header, RecordHeader2):
+                    # SSLv2 framing is valid only in SSLv2 connections and
+                    # for the initial, unprotected, ClientHello
+                    if self.version not in ((0, 2), (2, 0)) and \
+                            self._readState and \
+                            (self._readState.encContext or
+                             self._readState.macContext):
+                        raise TLSUnexpectedMessage(
+                            "SSLv2 record in protected connection")
                     data = self._decryptSSL2(data, header.padding)
                     if self.handshake_finished:
                         header.type = ContentType.application_data
